@@ -241,9 +241,14 @@ func init() {
 					s.track(fmt.Sprintf("value returned by load(%d,%d)", c.Off, c.W), func() string { return exprJSON(e) })
 				}
 			case "missing":
-				ev.Ivs, ev.Outside = s.ivs(s.mem.Missing(model.Addr(s.base+uint64(c.Off)), expr.Width(c.W)))
+				mm := s.mem.Missing(model.Addr(s.base+uint64(c.Off)), expr.Width(c.W))
+				ev.Ivs, ev.Outside = s.ivs(mm)
+				// the map handed out stays what it was (it is kept and re-read after every later operation)
+				s.track(fmt.Sprintf("map returned by missing(%d,%d)", c.Off, c.W), func() string { return fmt.Sprint(mm.Intervals()) })
 			case "blocks":
-				ev.Ivs, ev.Outside = s.ivs(s.mem.Blocks())
+				bm := s.mem.Blocks()
+				ev.Ivs, ev.Outside = s.ivs(bm)
+				s.track("map returned by blocks", func() string { return fmt.Sprint(bm.Intervals()) })
 			default:
 				panic("harness: unknown mem op " + c.Op)
 			}
